@@ -46,12 +46,14 @@ MANIFEST = {
             "itself, so every target frame is a rigidly moved copy of it and an EXACT one under the cube rotations: exactly "
             "degenerate optima, quaternions (0,1,0,0), (0,0,1,0), (0,0,0,1) and the diagonal half-turns, RMSD* = 0) x "
             "(atom_indices, ref_atom_indices) in {None, equal subsets, same set in "
-            "different order, different sets and atom counts} x parallel x precentered; every md.rmsd value is compared "
+            "different order, different sets and atom counts, all atoms listed explicitly, permutations of all atoms} x parallel x precentered; every md.rmsd value is compared "
             "with the float64 minimum over proper rotations (|rmsd^2-msd*| <= (9+ceil(N/4)) eps32 (Ga+Gb)/N + centring "
             "term), plus the stated relations (zero on itself, symmetry, rigid motion of target and of reference, parallel "
             "flag); Trajectory.superpose: reference untouched, every interatomic distance kept, proper motion, un-fitted "
             "RMSD of the alignment atoms equals the minimum; md.lprmsd with fixed labels, md.rmsf and "
-            "geometry.alignment against their docstring definitions. C2 dimers (exact on a 2^-14 nm grid): subunit B = half-turn "
+            "geometry.alignment against their docstring definitions. superpose with a reference that shares memory with the target (t.superpose(t, k) for 2 (3) "
+            "frames k, and a copy=False slice of t) is judged against a snapshot of the reference taken before the call "
+            "(frame k must stay where it was). C2 dimers (exact on a 2^-14 nm grid): subunit B = half-turn "
             "image of subunit A about x, y, z through 2 centres x 4 translations x 2 index layouts x all n; rmsd(B onto A) "
             "and superpose(atom_indices=B, ref_atom_indices=A) must bring B onto A (and A onto B) rigidly. Right level: optimality over a continuous set can "
             "only be sampled, so the sample is a designed product with one member per shortcut in the code (SIMD "
@@ -249,6 +251,7 @@ def _job_inner(fam, n, sel, quick, seed):
     lab = lambda i: "frame %d (rot %d, transl %g)" % (i, labels[i][0], labels[i][1])
     nontrivial = set()
     bit_identical = [0, 0]
+    shares_memory = [0, 0]
 
     def kw():
         return dict(atom_indices=None if ai is None else ai.copy(), ref_atom_indices=None if rai is None else rai.copy())
@@ -389,6 +392,48 @@ def _job_inner(fam, n, sel, quick, seed):
                     "Ga+Gb=%.4g gap/(Ga+Gb)=%.3g" % (f, par, lab(i), pm[i], rstar[i], hi[i], o["q0"][i],
                                                      o["Ga"][i] + o["Gb"][i], o["gapr"][i]))
 
+    # ---------------------------------------------------------------- E2: reference sharing memory with the target
+    # t.superpose(t, frame=k) and a copy=False slice of t as reference: judged against a snapshot of the reference
+    # conformation taken BEFORE the call (frame k itself must end up where it was)
+    same_n = S["n_ref"] == S["n_target"]
+    variants = [("same-atoms", ts, ts, dict(atom_indices=None if ai is None else ai.copy()))]
+    if same_n and rai is not None:
+        variants.append(("ref_atom_indices", ts, rs, kw()))
+    ks = [0, F // 2 + 1] if quick else [0, F // 3, F - 1]
+    for vname, tsx, rsx, kws in variants:
+        for kk, k in enumerate(ks):
+            o = K.kabsch(T64[:, tsx], T64[k, rsx])
+            o["cls"], _v, o["gapr"], o["q0"] = _classes(o)
+            rstar = np.sqrt(o["msd"])
+            for how in ("self", "view"):
+                par = bool((kk + (how == "view")) % 2)
+                t = _mk(T)
+                if how == "self":
+                    r, fidx = t, k
+                else:
+                    r, fidx = t.slice(slice(k, None), copy=False), 0
+                    shares_memory[1] += 1
+                    shares_memory[0] += int(np.shares_memory(r.xyz, t.xyz))
+                snap = np.array(r.xyz[fidx], dtype=np.float64, copy=True)
+                _par(par, t.superpose, r, fidx, **{kk_: (None if v is None else v.copy()) for kk_, v in kws.items()})
+                X = t.xyz.astype(np.float64)
+                e = EPS * (16 * rmax + max(float(np.abs(t.xyz).max()), magT))
+                hi = np.sqrt(o["msd"] + 2 * (k4 + 5) * EPS * (o["Ga"] + o["Gb"]) / n) + e
+                pm = np.sqrt(K.plain_msd(X[:, tsx], snap[rsx]))
+                acc.add("superpose|%s-reference|unfitted-rmsd" % how, o["cls"], np.maximum((pm - rstar) / (hi - rstar), (rstar - pm) / e),
+                        lambda i, pm=pm, rstar=rstar, hi=hi, k=k, how=how, vname=vname, par=par: "%s reference (%s), frame %d, parallel=%s, "
+                        "%s: un-fitted rmsd to the reference conformation as it was before the call = %.9g, float64 minimum = "
+                        "%.9g (accepted up to %.9g)" % ("t itself as" if how == "self" else "copy=False slice of t as", vname, k, par,
+                                                        lab(i), pm[i], rstar[i], hi[i]))
+                if vname == "same-atoms":
+                    acc.add("superpose|%s-reference|frame-k-stays" % how, o["cls"][k], np.sqrt(K.plain_msd(X[k], T64[k])) / (hi[k] - rstar[k]),
+                            lambda _i, k=k, how=how, par=par, X=X: "%s reference, parallel=%s: reference frame %d itself moved by %.9g nm (rms)" % (
+                                how, par, k, np.sqrt(K.plain_msd(X[k], T64[k]))))
+                dd = np.abs(np.sqrt(((X[:, pi] - X[:, pj]) ** 2).sum(-1)) - d_before).max(axis=1)
+                acc.add("superpose|%s-reference|distances" % how, "regular", dd / (2 * e),
+                        lambda i, dd=dd, e=e, k=k, how=how: "%s reference frame %d %s: an interatomic distance changed by %.3g nm (tol %.3g)" % (
+                            how, k, lab(i), dd[i], 2 * e[i]))
+
     # ---------------------------------------------------------------- F: lprmsd with labels fixed
     excluded_lp = 0
     if sel in ("none", "equal"):
@@ -518,7 +563,7 @@ def _job_inner(fam, n, sel, quick, seed):
     return dict(evals=acc.evals, nontrivial=len(nontrivial), records=acc.records(quick, seed), margin=acc.margin,
                 margin_all=acc.margin_all, counts=acc.counts, sample=sample, threads=threads, frames=F,
                 bit_identical=bit_identical, class_count=cls_count, excluded_lp=excluded_lp,
-                exact_copy_frames=exact_copy, exact_copy_half_turn_frames=exact_half)
+                exact_copy_frames=exact_copy, exact_copy_half_turn_frames=exact_half, shares_memory=shares_memory)
 
 
 def _job_dimer(n, layout, quick, seed):
@@ -615,6 +660,7 @@ def run(ctx):
     evals = nontrivial = unconv = excluded_lp = exact_dimer = exact_copy = exact_half = 0
     margin, margin_all, counts, cls_count = {}, {}, {}, {}
     bit = [0, 0]
+    shares = [0, 0]
     samples = []
     for job, res in zip(jobs, results):
         ctx.report(res["records"])
@@ -634,6 +680,9 @@ def run(ctx):
             cls_count[k] = cls_count.get(k, 0) + v
         exact_dimer += res.get("exact_half_turn_frames", 0)
         exact_copy += res.get("exact_copy_frames", 0)
+        shm = res.get("shares_memory", [0, 0])
+        shares[0] += shm[0]
+        shares[1] += shm[1]
         exact_half += res.get("exact_copy_half_turn_frames", 0)
         if (job[0] in ("mirror", "offset500", "bonded") and job[1] in (5, 65) and job[2] in ("none", "diffsets")) or \
                 (job[0] == "c2dimer" and job[1] == 5):
@@ -659,6 +708,7 @@ def run(ctx):
         "c2dimer_frames_with_exact_half_turn_optimum": int(exact_dimer),
         "target_frames_exact_rigid_copy_of_reference_frame_3": int(exact_copy),
         "of_those_optimal_rotation_exact_half_turn": int(exact_half),
+        "view_reference_calls": shares[1], "view_reference_calls_sharing_memory_with_target": shares[0],
         "jobs": len(jobs),
         "frames_per_target": results[0]["frames"], "frames_per_dimer_target": results[-1]["frames"],
         "evaluations_by_check": counts,
